@@ -1,13 +1,21 @@
 import Driver.Common
 import FranzVerif.Gen.C29
 import FranzVerif.Model.C29
+import FranzVerif.Model.C29Client
 /-! Sub-driver C29. Input lines `op | impl`; output `model | verdict | nontrivial`.
 
   inc s n | r                 model: regenerated `incrementSequence`; Spec: r = (s+n) mod 2^31
   reset | ok                  fresh producer id (fresh window); the partition log continues
   push epoch first n | resp   model: produce-handler glue + `push` with the regenerated modulus;
                               Spec: `Spec.allows` on the implementation's answer, abstract state
-                              advanced by the implementation's own answers -/
+                              advanced by the implementation's own answers
+  scen start … | h events…    a history of the REAL client against the real kfake (harness/cmd/c29/scen.go);
+                              model output `*` (batching and re-sends depend on timing); Spec = the chain monitor
+                              `Model.C29C.Mon` over every produce batch that reached the broker side, the kfake
+                              window spec `Spec.allows` over every answer, and the end-state checks (no data-loss
+                              report, epoch bump or failed record without a broker-side reason; log = every record
+                              exactly once, in order). Verdict keys: client-seq-chain, kfake-seq, client-dataloss,
+                              log, client-stuck, scen-setup. -/
 open Driver Model.C29
 
 structure St where
@@ -28,6 +36,131 @@ def parseResp (ts : List String) : Option (Resp × Option Int) :=
   | ["dup", o] => o.toInt?.map fun v => (.dup v, none)
   | ["reject"] => some (.reject, none)
   | _ => none
+
+
+/-! ### scenarios (real client x real kfake) -/
+
+structure Scen where
+  start : Int
+  mon : Model.C29C.Mon := {}
+  bad : Option String := none
+  spec : Spec := {}
+  hwm : Int := 0
+  reqs : List (Int × (Int × Int × Int)) := []
+  /-- requests handed to kfake whose answer has not been seen (arrival order); kfake may have handled them
+  although the answer never made it onto a connection that was cut meanwhile -/
+  unanswered : List (Int × (Int × Int × Int)) := []
+  /-- such requests that a later answer showed to have been appended (request, base offset) -/
+  absorbed : List (Int × Int) := []
+  rejects : Nat := 0
+  dls : Nat := 0
+  firstEpoch : Option Int := none
+  crossed : Bool := false
+  resend : Bool := false
+  nq : Nat := 0
+  pf : Option Int := none
+  ep : Option Int := none
+  want : Option Int := none
+  log : Option String := none
+  ended : Bool := false
+
+def Scen.flag (s : Scen) (k : String) : Scen := if s.bad.isSome then s else { s with bad := some k }
+
+def ints (l : List String) : Option (List Int) := l.mapM (·.toInt?)
+
+/-- error codes after which the client legitimately gives up its sequence chain (new epoch / data loss report):
+OUT_OF_ORDER_SEQUENCE_NUMBER, INVALID_PRODUCER_EPOCH, INVALID_PRODUCER_ID_MAPPING, UNKNOWN_PRODUCER_ID -/
+def seqErr (e : Int) : Bool := e == 45 || e == 47 || e == 49 || e == 59
+
+def Scen.ev (s : Scen) (tok : String) : Scen :=
+  match tok.splitOn ":" with
+  | ["st", a, b] =>
+    if a.toInt? == some s.start && b.toInt? == some s.start then s else s.flag "scen-setup"
+  | ["q", rq, act, e, f, n, _rid] =>
+    match ints [rq, act, e, f, n] with
+    | some [rq, act, e, f, n] =>
+      let s := if s.nq == 0 && f != s.start then s.flag "client-seq-chain" else s
+      let isResend := s.mon.started && e == s.mon.epoch && f != s.mon.nextSeq && s.mon.chain.contains (f, n)
+      let s := { s with nq := s.nq + 1, firstEpoch := s.firstEpoch <|> some e,
+                        crossed := s.crossed || decide (f + n ≥ Model.C29C.seqMod), resend := s.resend || isResend,
+                        reqs := if act == 1 then s.reqs else (rq, (e, f, n)) :: s.reqs,
+                        unanswered := if act == 1 then s.unanswered else s.unanswered ++ [(rq, (e, f, n))] }
+      match s.mon.step (.batch e f n) with
+      | some m => { s with mon := m }
+      | none => s.flag "client-seq-chain"
+    | _ => s.flag "scen-setup"
+  | ["r", rq, err, base, deliv] =>
+    match ints [rq, err, base, deliv] with
+    | some [rq, err, base, deliv] =>
+      match s.reqs.lookup rq with
+      | none => s.flag "scen-setup"
+      | some (e, f, n) =>
+        -- an append beyond the known end of the log: earlier requests whose answers were lost with their connection
+        -- were appended by kfake; they are accounted for in arrival order as far as the spec allows an accept
+        let earlier := s.unanswered.takeWhile (fun u => u.1 != rq)
+        let s := if err == 0 && base > s.hwm then
+            earlier.foldl (fun s u =>
+              let (urq, (ue, uf, un)) := u
+              if s.hwm < base && uf ≥ 0 && un ≥ 1 && s.hwm + un ≤ base && s.spec.allows ue uf un .accept then
+                { s with spec := s.spec.step ue uf un s.hwm .accept, hwm := s.hwm + un, absorbed := (urq, s.hwm) :: s.absorbed,
+                         unanswered := s.unanswered.filter (fun v => v.1 != urq) }
+              else s) s
+          else s
+        let s := { s with unanswered := s.unanswered.filter (fun v => v.1 != rq) }
+        -- the broker's answer against the window spec (only for requests the spec speaks about)
+        let ri : Option Resp :=
+          if f < 0 || n < 1 then none
+          else if err == 0 && s.absorbed.contains (rq, base) then none   -- already accounted for as an append at this offset
+          else if err == 0 then some (if base == s.hwm then .accept else .dup base)
+          else if err == 45 then some .reject else none
+        let s := match ri with
+          | none => s
+          | some ri =>
+            let s := if s.spec.allows e f n ri then s else s.flag "kfake-seq"
+            { s with spec := s.spec.step e f n base ri, hwm := if ri == .accept then s.hwm + n else s.hwm }
+        if seqErr err && deliv == 1 then
+          { s with rejects := s.rejects + 1, mon := (s.mon.step .reset).getD s.mon }
+        else s
+    | _ => s.flag "scen-setup"
+  | ["dl"] => { s with dls := s.dls + 1 }
+  | ["mv", _] => s
+  | ["pf", k] => { s with pf := k.toInt? }
+  | ["ep", k] => { s with ep := k.toInt? }
+  | ["want", k] => { s with want := k.toInt? }
+  | ["log", l] => { s with log := some l }
+  | ["Q"] => { s with ended := true }
+  | "ERR" :: what :: _ => s.flag (if what == "records-not-acknowledged" then "client-stuck" else "scen-setup")
+  | _ => s.flag "scen-setup"
+
+def Scen.finish (s : Scen) : Scen :=
+  let bumped := s.ep != s.firstEpoch && s.firstEpoch.isSome
+  if s.bad.isSome then s
+  else if !s.ended then s.flag "scen-setup"
+  else if s.dls > s.rejects then s.flag "client-dataloss"
+  else if bumped && s.rejects == 0 then s.flag "client-dataloss"
+  else if bumped || s.dls > 0 then s   -- the broker gave a reason: what the client does then is not this property's business
+  else if s.pf != some 0 then s.flag "client-dataloss"
+  else
+    match s.want with
+    | none => s.flag "scen-setup"
+    | some w =>
+      let expect := if w == 0 then "-" else s!"0-{w - 1}"
+      if s.log == some expect then s else s.flag "log"
+
+def scenLine (opToks : List String) (impl : String) : String :=
+  match opToks with
+  | _ :: start :: _ =>
+    match start.toInt? with
+    | none => "bad-op | - | 0"
+    | some st =>
+      match toks impl with
+      | "h" :: evs =>
+        let s := (evs.foldl Scen.ev { start := st : Scen }).finish
+        let v := match s.bad with | none => "1" | some k => "0:" ++ k
+        s!"* | {v} | {boolStr (s.crossed && s.resend)}"
+      | ["hang"] => "* | 0:client-stuck | 0"
+      | _ => "* | 0:scen-setup | 0"
+  | _ => "bad-op | - | 0"
 
 def step (st : St) (line : String) : St × String :=
   let (op, impl) := splitBar line
@@ -67,6 +200,7 @@ def step (st : St) (line : String) : St × String :=
       let nt := boolStr (decide (f + n ≥ seqMod - 64) || r != .accept)
       ({ win := w', pidEpoch := some e, hwm := hwm', spec := spec', specHwm := shwm' }, s!"{mout} | {verdict} | {nt}")
     | _, _, _ => (st, "bad-op | - | 0")
+  | "scen" :: _ => (st, scenLine (toks op) impl)
   | _ => (st, "bad-op | - | 0")
 
 def main : IO UInt32 := runLoop ({} : St) step
